@@ -11,6 +11,7 @@ pub struct Iter<'a, T> {
     coords: Vec<usize>,
     offset: usize,
     index: usize,
+    len: usize,
 }
 
 impl<'a, T> Iter<'a, T> {
@@ -20,6 +21,7 @@ impl<'a, T> Iter<'a, T> {
             coords: vec![0; view.dimensions()],
             offset: 0,
             index: 0,
+            len: view.shape.elements(),
         }
     }
 
@@ -28,11 +30,6 @@ impl<'a, T> Iter<'a, T> {
     }
 
     fn impl_next_rec(&mut self, axis: usize) -> Option<<Self as Iterator>::Item> {
-        if self.index == 0 {
-            self.index += 1;
-            return self.view.data.first();
-        };
-
         self.coords[axis] += 1;
         if self.coords[axis] < self.view.shape[axis] {
             self.offset += self.view.strides[axis];
@@ -52,11 +49,19 @@ impl<'a, T> Iterator for Iter<'a, T> {
     type Item = &'a T;
 
     fn next(&mut self) -> Option<Self::Item> {
-        self.impl_next_rec(self.view.dimensions() - 1)
+        if self.index >= self.len {
+            // Exhausted: stay exhausted, and leave the odometer alone
+            None
+        } else if self.index == 0 {
+            self.index += 1;
+            self.view.data.first()
+        } else {
+            self.impl_next_rec(self.view.dimensions() - 1)
+        }
     }
 
     fn size_hint(&self) -> (usize, Option<usize>) {
-        let n = self.view.shape.elements() - self.index;
+        let n = self.len - self.index;
         (n, Some(n))
     }
 }
